@@ -5,7 +5,7 @@
     Limit+Offset when the request asks for the table's default order, merge,
     sort, window); [data_result_spec] is the window [Offset, Offset+Limit) of
     the sorted union of ALL matching rows of the selected backends. *)
-From LMD Require Import QE.Engine QE.WindowProofs Gen.Schema.
+From LMD Require Import QE.Engine QE.WindowProofs QE.Index QE.IndexProofs Gen.Schema.
 From Coq Require Import Sorting.Sorted.
 
 (** No early cut-off (any Sort that is not the default order, or no Limit): the
@@ -78,6 +78,20 @@ Example C06_example :
   end.
 Proof. vm_compute. repeat split. Qed.
 
+(** the precondition of the per-backend cut-off also holds for index pre-selected rows:
+    on a store in primary key order the candidates are a sub-sequence of the store, so they
+    are themselves in primary key order (tryFilterIndexData re-sorts the hits) *)
+Theorem C06_index_hits_in_store_order :
+  forall schema bk t td fs rows,
+    schema_ok schema = true -> In t schema -> consistent schema bk ->
+    table_data bk t = Some td -> store_sorted t td ->
+    prefilter bk t fs = Some rows -> sublist rows (td_rows td).
+Proof. exact prefilter_order. Qed.
+
+Theorem C06_index_hits_distinct :
+  forall bk t fs rows, prefilter bk t fs = Some rows -> NoDup rows.
+Proof. exact prefilter_NoDup. Qed.
+
 Print Assumptions C06_window_general.
 Print Assumptions C06_window_default_order_cutoff.
 Print Assumptions C06_window_unsorted.
@@ -85,3 +99,5 @@ Print Assumptions C06_sorted.
 Print Assumptions C06_rows_are_matching.
 Print Assumptions C06_total_count.
 Print Assumptions C06_window_is_a_segment.
+Print Assumptions C06_index_hits_in_store_order.
+Print Assumptions C06_index_hits_distinct.
